@@ -63,19 +63,31 @@ def copy_imagefolder_from_global_to_local(global_path, local_path, relative_path
                 )
             else:
                 # incomplete copy -> delete and copy again
+                # (keep the start file: if this attempt is interrupted too, the folder still has to be recognized
+                # as incomplete automatic copy and not as manually copied dataset)
                 log(log_fn, f"found incomplete automatic copy in '{dst_path}' -> deleting folder")
-                shutil.rmtree(dst_path)
+                for entry in list(dst_path.iterdir()):
+                    if entry == start_copy_file:
+                        continue
+                    if entry.is_dir() and not entry.is_symlink():
+                        shutil.rmtree(entry)
+                    else:
+                        entry.unlink()
                 was_deleted = True
-                dst_path.mkdir()
         else:
             log(log_fn, f"using manually copied dataset '{dst_path}'")
             return CopyImageFolderResult(was_copied=False, was_deleted=False, was_zip=False, was_zip_classwise=False)
     else:
-        dst_path.mkdir(parents=True)
-
-    # create start_copy_file
-    with open(start_copy_file, "w") as f:
-        f.write("this file indicates that an attempt to copy the dataset automatically was started")
+        # create dst_path together with the start_copy_file (via rename of a temporary folder) because a dst_path
+        # without start_copy_file (interrupted between mkdir and creating the file) would be mistaken for a
+        # manually copied dataset
+        tmp_path = dst_path.with_name(f"{dst_path.name}.autocopy_tmp")
+        if tmp_path.exists():
+            shutil.rmtree(tmp_path)
+        tmp_path.mkdir(parents=True)
+        with open(tmp_path / start_copy_file.name, "w") as f:
+            f.write("this file indicates that an attempt to copy the dataset automatically was started")
+        tmp_path.rename(dst_path)
 
     # copy
     was_zip = False
